@@ -1,6 +1,9 @@
 (* C05 / C06 / C20 driver (one case format for the three properties; C06 and C20 link to this file).
    input : nv w_0 .. w_{nv-1} fcsize vcsize diffk mal ; op ; op ; ...
      E id cr seq p1 .. pk   Engine.Add (+Flush, or DropNotFlushed on failure)    obs e1 | e0 (error) | eP (panic)
+     A id cr seq p1 .. pk   Engine.Add WITHOUT Flush (DropNotFlushed on failure: every unflushed event is lost)
+     F                      Flush                                                obs f
+     D                      DropNotFlushed (back to the last Flush)              obs d<number of events lost>
      Q k ord                ForklessCause on all pairs of the last k added events, twice
                                                                                   obs q<bits>/<bits>
      M k                    GetMergedHighestBefore of the last k (0 = all) events, direct and
@@ -44,8 +47,9 @@ let eval inp obs =
   let nvn = nat_of_int nv in
   let q = quorum_of ws in
   let s = ref (init nvn) and cache = ref (fcache_new (nat_of_int fcsize)) in
-  let order = ref [] (* newest first *) in
-  let specE = ref [] (* (id, event), newest first: events the implementation accepted *) in
+  let sflushed = ref (init nvn) in
+  let order = ref [] (* newest first *) and orderF = ref [] in
+  let specE = ref [] (* (id, event), newest first: events the implementation accepted *) and specEF = ref [] in
   let table = ref None in
   let get_table () = (match !table with Some t -> t | None -> let t = anc_table !specE in table := Some t; t) in
   let qi = ref (Some (qi_new nvn)) in
@@ -64,17 +68,25 @@ let eval inp obs =
   List.iteri (fun i op ->
     let iobs = if i < Array.length obs_arr then obs_arr.(i) else "" in
     let out = (match op with
-    | "E" :: id :: cr :: sq :: ps ->
+    | ("E" | "A" as kind) :: id :: cr :: sq :: ps ->
       let e = { eid = n_of_tok id; ecr = nat_of_tok cr; eseq = n_of_tok sq; epar = List.map n_of_tok ps } in
-      let (ok, s') = add_or_drop !s e in
-      s := s';
-      if ok then order := e.eid :: !order;
+      let (ok, st') = vs_add { vs_flushed = !sflushed; vs_cur = !s } e in
+      s := st'.vs_cur;
+      if ok then order := e.eid :: !order else order := !orderF;
       if iobs = "e1" then begin
         if not !mal && not (wf_evb nvn !specE e) then begin
           hyp_bad := (Printf.sprintf "op%d:E%s outside wf_stream" i (ntok e.eid)) :: !hyp_bad; mal := true end;
-        specE := (e.eid, e) :: !specE; table := None end;
+        specE := (e.eid, e) :: !specE; table := None end
+      else begin specE := !specEF; table := None end;
+      if ok && kind = "E" then begin sflushed := !s; orderF := !order end;
+      if iobs = "e1" && kind = "E" then specEF := !specE;
       if int_of_nat (nbr !s) > nv then forkseen := true;
       if ok then "e1" else "eP" (* the real Add panics on a missing parent vector (typed-nil check), see notes *)
+    | ["F"] -> sflushed := !s; orderF := !order; specEF := !specE; "f"
+    | ["D"] ->
+      let lost = List.length !order - List.length !orderF in
+      s := !sflushed; order := !orderF; specE := !specEF; table := None;
+      "d" ^ string_of_int lost
     | ["Q"; k; ord] ->
       let r = lastn (int_of_string k) (List.rev !order) in
       let pairs = List.concat_map (fun a -> List.map (fun b -> (a, b)) r) r in
